@@ -2505,6 +2505,14 @@ namespace Clipper2Lib {
       }
 
       IntersectNode& node = *node_iter;
+#ifdef CLIPPER2_VERIF
+      if (verif::intersect_fn)
+      {
+        const long long v[11] = { node.edge1->bot.x, node.edge1->bot.y, node.edge1->top.x, node.edge1->top.y,
+          node.edge2->bot.x, node.edge2->bot.y, node.edge2->top.x, node.edge2->top.y, node.pt.x, node.pt.y, bot_y_ };
+        verif::intersect_fn(v);
+      }
+#endif
       IntersectEdges(*node.edge1, *node.edge2, node.pt);
       SwapPositionsInAEL(*node.edge1, *node.edge2);
 
